@@ -927,7 +927,12 @@ def c07(obs: Observer):
                 return (cls, f'`{obs.op}` for a job whose group has {n} cancelled ancestors-or-self was answered with MySQL error {errno}: {msg}')
     # the SQL function agrees with the predicate computed from the tables
     for (b, g) in v.groups:
-        r = obs.w.query('SELECT is_job_group_cancelled(%s, %s) AS c', (b, g))[0]['c']
+        try:
+            r = obs.w.query('SELECT is_job_group_cancelled(%s, %s) AS c', (b, g))[0]['c']
+        except Exception as e:   # noqa: BLE001   (a MySQL error raised by the service's own function is a finding, not a harness failure)
+            n = sum(1 for a in v.anc.get((b, g), []) if (b, a) in v.cancelled)
+            return ('is_job_group_cancelled-raises', f'SELECT is_job_group_cancelled({b}, {g}) for a group with {n} cancelled ancestors-or-self '
+                                                     f'raised {type(e).__name__}{e.args}')
         if bool(r) != v.group_cancelled(b, g):
             return ('is_job_group_cancelled-disagrees', f'is_job_group_cancelled({b}, {g}) = {r}, ancestor walk over the tables = {v.group_cancelled(b, g)}')
     return None
@@ -939,6 +944,14 @@ def c07(obs: Observer):
 def c08(obs: Observer):
     p, v = obs.prev, obs.cur
     ws = obs.op.split()
+    if ws[0] == 'commit' and obs.ans == 'ok 0' and int(ws[2]) >= 2:
+        b, u = int(ws[1]), int(ws[2])
+        for k, j in v.jobs.items():
+            if k[0] == b and j['update_id'] == u:
+                for par in v.parents.get(k, []):
+                    pj = v.jobs.get((b, par))
+                    if pj is not None and pj['state'] not in TERMINAL:
+                        obs.tag(f'commit-of-later-update-while-parent-is-{pj["state"]}')
     if ws[0] == 'insertJobs':
         new = [j for k, j in v.jobs.items() if k not in p.jobs]
         if obs.case.get('adv') and obs.op not in [h[0] for h in obs.history[:-1]]:
@@ -1176,6 +1189,35 @@ def c41(obs: Observer):
             return (cls, f'the scheduler\'s SELECT returns job {(b, j)} of update {job["update_id"]}, which is not committed')
     if any(not u['committed'] for u in v.updates.values()) and v.jobs:
         obs.tag('uncommitted-update-present')
+    # read side: what the REAL list queries of the front end return (v1 and v2 job listing of the root group, recursive; the job-group
+    # listing) names only jobs / groups of committed updates — an open update is exactly as if it had not been started
+    if any(not u['committed'] for u in v.updates.values()):
+        import types
+        w = obs.w
+        req = types.SimpleNamespace(app=w.app)
+        for b, bt in v.batches.items():
+            if bt['deleted'] or not any(not u['committed'] for (bb, _), u in v.updates.items() if bb == b):
+                continue
+            for version in (1, 2):
+                jobs, _ = w.run(w.fe._query_job_group_jobs(req, b, 0, version, '', None, True))
+                obs.tag(f'job-list-v{version}-read-with-open-update')
+                for x in jobs:
+                    row = v.jobs.get((b, x['job_id']))
+                    if row is not None and not v.committed(b, row['update_id']):
+                        return (f'job-list-v{version}-shows-job-of-uncommitted-update',
+                                f'the v{version} job listing of batch {b} (real parse_job_group_jobs_query_v{version}) returns job {x["job_id"]} of '
+                                f'update {row["update_id"]}, which is not committed')
+            try:
+                groups, _ = w.run(w.fe._query_job_groups(req, b, 0, None))
+            except Exception as e:   # noqa: BLE001
+                if type(e).__name__ != 'NonExistentJobGroupError':
+                    raise
+                groups = []
+            for x in groups:
+                g = v.groups.get((b, x['job_group_id']))
+                if g is not None and g['update_id'] is not None and not v.committed(b, g['update_id']):
+                    return ('job-group-list-shows-group-of-uncommitted-update',
+                            f'the job-group listing of batch {b} returns group {x["job_group_id"]} of update {g["update_id"]}, which is not committed')
     # a batch with no committed job is complete, like one that never had an update (whatever its spec announced, whatever is open)
     for b, bt in v.batches.items():
         if bt['n_jobs'] == 0 and not bt['deleted'] and not any(v.committed(b, j['update_id']) for j in v.jobs.values() if j['batch_id'] == b):
